@@ -636,7 +636,7 @@ func TestC02Private(t *testing.T) {
 	st := vstat.For("C02")
 	rapid.Check(t, func(rt *rapid.T) {
 		c := PrivateCase{Backend: rapid.SampledFrom([]string{"redis", "redis", "inmem"}).Draw(rt, "backend"), Threads: rapid.IntRange(2, vstat.Pick(48, 64)).Draw(rt, "threads"),
-			Rounds: rapid.IntRange(20, vstat.Pick(300, 1500)).Draw(rt, "rounds"), ValLen: rapid.SampledFrom([]int{0, 8, 100, 2000}).Draw(rt, "valLen")}
+			Rounds: rapid.IntRange(20, vstat.Pick(300, 600)).Draw(rt, "rounds"), ValLen: rapid.SampledFrom([]int{0, 8, 100, 2000}).Draw(rt, "valLen")}
 		v := runPrivate(c, storageFor(rt, c.Backend))
 		st.Report(rt, "TestC02Private", c, v)
 		st.Case(c.Threads >= 4, vstat.Hash(c), func() any { return c }, "private_keys:"+c.Backend)
